@@ -236,6 +236,28 @@ def workout():
                 setattr(m, name, t.min)
         m.clone()
         n += 1
+    # legal-but-odd assignments on unit-dependent controllers (their range tables are class-level objects): values just
+    # outside the range of EVERY unit, strict and lenient -- whatever the outcome, the tables must stay as specified
+    from rv.errors import override_raise_controller_value_errors
+
+    for tkey, t in spec.types().items():
+        by_name = {x.name: x for x in t.controllers}
+        for c in t.controllers:
+            if c.kind != "dependent":
+                continue
+            u = by_name[c.depends_on]
+            for unit, (lo, hi) in c.ranges.items():
+                for strict in (True, False):
+                    for v in (hi + 44, lo - 1, hi + 100000):
+                        m = getattr(rv.m, tkey)()
+                        try:
+                            setattr(m, u.attr, u.members[unit])
+                            with override_raise_controller_value_errors(strict):
+                                setattr(m, c.attr, v)
+                            m.clone()
+                        except Exception:
+                            pass
+                        n += 1
     # a file naming a module type the specification does not have
     data = C.save(rv.Synth(rv.m.Amplifier()))
     chunks = [(cid, (b"No such type\0" if cid == b"STYP" else d)) for cid, d in codec.parse_chunks(data)]
